@@ -3,13 +3,15 @@ import TwistedProps.C23.Body
 import TwistedProps.C23.Control
 import TwistedProps.C23.Data
 import TwistedProps.C23.Split
+import TwistedProps.C23.Traces
 /-!
 # C23 — the HTTP/1.1 client completes every request exactly once, with the exact body
 
 Model: `TwistedModel/Http/Client.lean` (`HTTPParser`/`HTTPClientParser`, `Response`, `HTTP11ClientProtocol`,
 as repaired by the C23 fix), decoders: the C22 models.
 
-FULL STATEMENT (the target; the exactly-once part is proved in full, the rest in part):
+FULL STATEMENT (the target; exactly-once is proved for every script, which-value and the body for every response stream
+on a written request — see STILL MISSING):
 
   for every request mode `h p a d`, every event script `evs` (deliveries of arbitrary bytes in arbitrary
   segmentation, deliverBody / abort / cancel / request-written / request-failed at arbitrary positions)
@@ -44,21 +46,42 @@ WHAT IS PROVED (all for unbounded inputs, by induction / invariants):
   (`ResponseDone` when none), whether `deliverBody` comes before or after the end of the body; nothing is
   accepted after the end.
 
-STILL MISSING for the full statement (tie + oracle only): (1) WHICH value the single firing has — `.response` iff the
-bytes delivered before the loss contain a complete, well-formed head.  The splitting lemma for the line loop IS
-proved (`TwistedProps/C23/Split.lean`: `lrLoop_line` — `lrLoop s (line ++ 10 :: rest)` = `lineReceived s line` then
-`lrLoop … rest`; `lrLoop_partial` — a trailing partial line is buffered unchanged; both under the documented limit of
-16384 bytes per line); what is missing is its iteration over the head lines (a pure scan of the head that is
-independent of the segmentation) and the evaluation of `allHeadersReceived` on its result; (2) the link from the wire to the arguments of
-the Response-layer theorems: that the pieces handed to `_bodyDataReceived` are exactly the `data` increments of the
-C22 decoder run over the body bytes received (then `decode_encode` / `identity_decoder_exact` /
-`data_loss_on_truncation` of `TwistedProps/C22.lean` give "= the body", and the reason given to
-`_bodyDataFinished` is `ResponseDone` / `PotentialDataLoss` / `ResponseFailed([reason, _DataLoss])` by
-`parserConnectionLost`).
+* WHICH VALUE FIRES — `request_fires_response_iff_head_complete`: for every request mode with the request already
+  written, every script of deliveries (ANY bytes, ANY segmentation, empty deliveries included) and `deliverBody` calls,
+  then the loss with reason `r`, then late `deliverBody` calls: the single firing is the response IFF the bytes received
+  contain a complete well-formed head of a final response (1xx heads skipped) by the parser's own rules; otherwise
+  `ResponseFailed([e])` with the class `e` the parser raises on the malformed head, or — head incomplete —
+  `ResponseNeverReceived([r])` (nothing ever delivered) / `ResponseFailed([r])`.  "Contains a complete head" is the PURE,
+  segmentation-independent scan `scan` of `TwistedProps/C23/Head.lean` (`scan_append`: scanning `a ++ b` = scanning `a`
+  and going on with `b`; `lrLoop_scan`: the model's line loop — `lrLoop_line`/`lrLoop_partial` iterated over the head
+  lines — computes exactly it, `allHeadersReceived` evaluated on the result by `head_noBody` / `head_body`).
+* WIRE → DECODER → BODY PROTOCOL — `body_whole_stream` (the pieces given to `_bodyDataReceived` are exactly the `data`
+  increments of the C22 decoder run over a segmentation of exactly the bytes after the head: `BodyRun.lean`
+  `body_run`, `Traces.lean` `decRun_chunked_feed` = the C22 `feed`), and per framing, for every response, segmentation
+  and truncation point, `deliverBody` before, during, after the body or after the loss or never:
+    - `body_whole_stream_no_body` (HEAD/204/304/`Content-Length: 0`): nothing, `ResponseDone`;
+    - `body_whole_stream_content_length`: exactly the first `n` bytes received after the head; `ResponseDone` iff at
+      least `n` arrived, else `ResponseFailed([r, _DataLoss])`;
+    - `body_whole_stream_until_close`: exactly the bytes received after the head; `PotentialDataLoss`;
+    - `body_whole_stream_chunked` (through C22 `decode_encode`): exactly the chunk data; `ResponseDone`;
+    - `body_whole_stream_chunked_truncated` (through C22 `data_loss_on_truncation`): exactly what the C22 decoder has
+      emitted on the received prefix; `ResponseFailed([r, _DataLoss])`;
+  each with: exactly one `makeConnection`, exactly one `connectionLost`, and nothing at all if `deliverBody` is never
+  called (`Observed`).
+
+STILL MISSING for the full statement (tie + oracle only): (1) the which-value / whole-stream theorems are for a request
+that has been written (`async = false`) and scripts whose events before the loss are deliveries and `deliverBody`;
+with `abort()` / `cancel()` / request-written / request-failed interleaved among the deliveries, or the request still
+being transmitted, only exactly-once (`request_deferred_fires_once`) and `control_only_fires_once_never_response` are
+proved; (2) head lines longer than `MAX_LENGTH` (16384) are excluded by hypothesis (documented limit; the effect then
+depends on the segmentation); (3) for a TRUNCATED chunked body the bytes delivered are characterised as the C22 decoder's
+output on the received prefix, not further as "the chunk data contained in the prefix" (C22 has no theorem about the
+partial output), and a MALFORMED chunked body is covered only by the generic `body_whole_stream` (end = what
+`connectionLost` dictates for the decoder's exception).
 -/
 namespace TwistedProps.C23
 open Twisted.Http.Client
-open Twisted.Http.Chunked (Bytes)
+open Twisted.Http.Chunked (Bytes Ident)
 
 def isControl : Event → Bool
   | .data _ => false
@@ -287,5 +310,215 @@ example :
     let s := (bodyFinished (feedBody (deliverBody (feedBody (Twisted.Http.Client.init false false false false) [[97], [98]])) [[99]])
       (some (.failed [.connectionDone, .dataLoss]))).state
     s.delivered = [97, 98, 99] ∧ s.lost = [.failed [.connectionDone, .dataLoss]] := by decide
+
+/-! ### whole-stream theorems: WHICH value fires, and the wire → decoder → body protocol link
+
+Scripts: any deliveries (arbitrary bytes, arbitrary segmentation, empty deliveries included) interleaved with
+`deliverBody` calls (`evs`), then the loss of the connection with `r`, then possibly late `deliverBody` calls
+(`post`); request already written (`async = false`).  `W = (payloads evs).flatten` is everything received.
+`scan isHead hs0 W` (`TwistedProps/C23/Head.lean`) is the pure, segmentation-independent reading of `W` by the
+parser's own rules (`scan_append`); `lrLoop_scan` shows the model's line loop computes it. -/
+
+/-- the value the request Deferred fires with, from the scan of everything received -/
+def firingOf (o : HeadOut) (noData : Bool) (r : Exc) : Fire :=
+  match o with
+  | .final _ _ _ _ _ => .response
+  | .bad e => .responseFailed [e]
+  | _ => if noData then .neverReceived [r] else .responseFailed [r]
+
+/-- **WHICH value fires.**  For every request mode, every script of deliveries (any bytes, any segmentation) and
+    `deliverBody` calls, the loss of the connection with reason `r` and later `deliverBody` calls — no head line
+    longer than `MAX_LENGTH` — the request Deferred has fired exactly once, with:
+    the response iff the bytes received contain a complete well-formed head of a final response (1xx heads
+    skipped) by the parser's own rules; `ResponseFailed([e])` if the head is malformed (`e` = the class the parser
+    raises: `ParseError`, `BadResponseVersion`, `ValueError`, `KeyError`, …); otherwise (head incomplete)
+    `ResponseNeverReceived([r])` if nothing was ever delivered and `ResponseFailed([r])` if something was. -/
+theorem request_fires_response_iff_head_complete (h p d : Bool) (evs post : List Event) (r : Exc)
+    (hdd : ∀ e ∈ evs, isDD e = true) (hpost : ∀ e ∈ post, e = .deliver)
+    (hlen : scan h hs0 (payloads evs).flatten ≠ .tooLong) :
+    (run (Twisted.Http.Client.init h p false d) (evs ++ .lost r :: post)).fires =
+      [firingOf (scan h hs0 (payloads evs).flatten) (payloads evs).isEmpty r] ∧
+    ((run (Twisted.Http.Client.init h p false d) (evs ++ .lost r :: post)).fires = [.response] ↔
+      ∃ code ph conn fr rest, scan h hs0 (payloads evs).flatten = .final code ph conn fr rest) := by
+  have hw := whole_run h p d evs post r hdd hpost
+  cases hX : scan h hs0 (payloads evs).flatten with
+  | tooLong => exact absurd hX hlen
+  | more hs' tail' =>
+    rw [hX] at hw
+    simp only [WholePost] at hw
+    refine ⟨by rw [hw]; rfl, ?_⟩
+    rw [hw]
+    constructor
+    · intro hc; cases hn : (payloads evs).isEmpty <;> simp [hn] at hc
+    · intro ⟨_, _, _, _, _, hc⟩; cases hc
+  | bad e =>
+    rw [hX] at hw
+    simp only [WholePost] at hw
+    refine ⟨by rw [hw]; rfl, ?_⟩
+    rw [hw]
+    constructor
+    · intro hc; simp at hc
+    · intro ⟨_, _, _, _, _, hc⟩; cases hc
+  | final code ph conn fr rest =>
+    rw [hX] at hw
+    simp only [WholePost] at hw
+    exact ⟨by rw [hw.1]; rfl, fun _ => ⟨code, ph, conn, fr, rest, rfl⟩, fun _ => hw.1⟩
+
+/-- **The body protocol, whole stream, in terms of the decoder run.**  If the bytes received contain a complete head
+    whose framing announces a body handled by decoder `D` (chunked / Content-Length / until close), then for some
+    segmentation `bs` of exactly the bytes `rest` that follow the head, the body protocol has seen (if `deliverBody`
+    was ever called — which it was if the callback calls it or a `deliverBody` follows the loss — and nothing
+    otherwise): one `makeConnection`, exactly the bytes the decoder emitted on `bs`, and exactly one `connectionLost`:
+    `ResponseDone` if the decoder finished, what `noMoreData()` dictates for the reason `r` if it was still live,
+    the decoder's own failure if it raised. -/
+theorem body_whole_stream (h p d : Bool) (evs post : List Event) (r : Exc)
+    (hdd : ∀ e ∈ evs, isDD e = true) (hpost : ∀ e ∈ post, e = .deliver)
+    (code : Int) (ph : Option Bytes) (conn : List (Bytes × Bytes)) (D : Decoder) (rest : Bytes)
+    (hX : scan h hs0 (payloads evs).flatten = .final code ph conn (.body D) rest) :
+    let sF := run (Twisted.Http.Client.init h p false d) (evs ++ .lost r :: post)
+    sF.fires = [.response] ∧ ((d = true ∨ Event.deliver ∈ post) → sF.appDelivered = true) ∧
+      ∃ bs, bs.flatten = rest ∧ Observed sF (decRun D [] bs).body ((decRun D [] bs).bodyEnd r) := by
+  have hw := whole_run h p d evs post r hdd hpost
+  rw [hX] at hw
+  exact hw
+
+/-- HEAD / 204 / 304 / `Content-Length: 0`: the body is empty and complete: `ResponseDone` -/
+theorem body_whole_stream_no_body (h p d : Bool) (evs post : List Event) (r : Exc)
+    (hdd : ∀ e ∈ evs, isDD e = true) (hpost : ∀ e ∈ post, e = .deliver)
+    (code : Int) (ph : Option Bytes) (conn : List (Bytes × Bytes)) (rest : Bytes)
+    (hX : scan h hs0 (payloads evs).flatten = .final code ph conn .noBody rest) :
+    let sF := run (Twisted.Http.Client.init h p false d) (evs ++ .lost r :: post)
+    sF.fires = [.response] ∧ ((d = true ∨ Event.deliver ∈ post) → sF.appDelivered = true) ∧
+      Observed sF [] .done := by
+  have hw := whole_run h p d evs post r hdd hpost
+  rw [hX] at hw
+  exact hw
+
+/-- **Content-Length body, whole stream** (`body_delivered_eq_body_received` + `body_connectionLost_once_with_right_reason`
+    for every response, segmentation and truncation point): with `Content-Length: n`, the body protocol gets exactly
+    the first `n` of the bytes received after the head, and `connectionLost` exactly once: `ResponseDone` if at least
+    `n` arrived, `ResponseFailed([r, _DataLoss])` if the connection was lost before. -/
+theorem body_whole_stream_content_length (h p d : Bool) (evs post : List Event) (r : Exc)
+    (hdd : ∀ e ∈ evs, isDD e = true) (hpost : ∀ e ∈ post, e = .deliver)
+    (code : Int) (ph : Option Bytes) (conn : List (Bytes × Bytes)) (n : Nat) (rest : Bytes)
+    (hX : scan h hs0 (payloads evs).flatten = .final code ph conn (.body (.ident (Ident.init (some n)))) rest) :
+    let sF := run (Twisted.Http.Client.init h p false d) (evs ++ .lost r :: post)
+    sF.fires = [.response] ∧ ((d = true ∨ Event.deliver ∈ post) → sF.appDelivered = true) ∧
+      Observed sF (rest.take n) (if n ≤ rest.length then .done else .failed [r, .dataLoss]) := by
+  obtain ⟨h1, h2, bs, hbs, hobs⟩ := body_whole_stream h p d evs post r hdd hpost code ph conn _ rest hX
+  have hlive := framing_body_live h code conn _ (scan_final_framing h hs0 _ code ph conn _ rest hX).1
+  obtain ⟨c1, c2⟩ := decRun_ident_len bs (Ident.init (some n)) n [] r rfl rfl (fun e => hlive.2 (by rw [e]; rfl))
+  rw [c1, c2, hbs] at hobs
+  exact ⟨h1, h2, by simpa using hobs⟩
+
+/-- **close-delimited body, whole stream**: no Content-Length, no chunked coding: the body protocol gets exactly the
+    bytes received after the head, and `connectionLost(PotentialDataLoss)` exactly once. -/
+theorem body_whole_stream_until_close (h p d : Bool) (evs post : List Event) (r : Exc)
+    (hdd : ∀ e ∈ evs, isDD e = true) (hpost : ∀ e ∈ post, e = .deliver)
+    (code : Int) (ph : Option Bytes) (conn : List (Bytes × Bytes)) (rest : Bytes)
+    (hX : scan h hs0 (payloads evs).flatten = .final code ph conn (.body (.ident (Ident.init none))) rest) :
+    let sF := run (Twisted.Http.Client.init h p false d) (evs ++ .lost r :: post)
+    sF.fires = [.response] ∧ ((d = true ∨ Event.deliver ∈ post) → sF.appDelivered = true) ∧
+      Observed sF rest .potentialDataLoss := by
+  obtain ⟨h1, h2, bs, hbs, hobs⟩ := body_whole_stream h p d evs post r hdd hpost code ph conn _ rest hX
+  obtain ⟨c1, c2⟩ := decRun_ident_close bs (Ident.init none) [] r rfl rfl
+  rw [c1, c2, hbs] at hobs
+  exact ⟨h1, h2, by simpa using hobs⟩
+
+/-- **chunked body, complete, whole stream** (through C22 `decode_encode`): if what follows the head is a well-formed
+    chunked encoding (C22's preconditions) followed by anything, the body protocol gets exactly the chunk data and
+    `connectionLost(ResponseDone)` exactly once — whatever the segmentation of the whole stream. -/
+theorem body_whole_stream_chunked (h p d : Bool) (evs post : List Event) (r : Exc)
+    (hdd : ∀ e ∈ evs, isDD e = true) (hpost : ∀ e ∈ post, e = .deliver)
+    (code : Int) (ph : Option Bytes) (conn : List (Bytes × Bytes)) (rest : Bytes)
+    (chunks : List C22.Chunk) (last : Bytes) (trailers : List Bytes) (extra : Bytes)
+    (hc : ∀ c ∈ chunks, c.wf) (hl : C22.lineOK last 0) (ht : ∀ t ∈ trailers, C22.trailerOK t)
+    (hT : C22.trailerSize trailers ≤ Twisted.Http.Chunked.maxTrailerHeadersSize)
+    (hX : scan h hs0 (payloads evs).flatten = .final code ph conn (.body (.chunked Twisted.Http.Chunked.init)) rest)
+    (hrest : rest = C22.encode chunks last trailers ++ extra) :
+    let sF := run (Twisted.Http.Client.init h p false d) (evs ++ .lost r :: post)
+    sF.fires = [.response] ∧ ((d = true ∨ Event.deliver ∈ post) → sF.appDelivered = true) ∧
+      Observed sF (C22.body chunks) .done := by
+  obtain ⟨h1, h2, bs, hbs, hobs⟩ := body_whole_stream h p d evs post r hdd hpost code ph conn _ rest hX
+  obtain ⟨c1, c2⟩ := decRun_chunked_complete chunks last trailers extra bs r hc hl ht hT (hbs.trans hrest)
+  rw [c1, c2] at hobs
+  exact ⟨h1, h2, hobs⟩
+
+/-- **chunked body, truncated, whole stream** (through C22 `data_loss_on_truncation`): if what follows the head is a
+    proper prefix `p` of a well-formed chunked encoding, the body protocol gets exactly what the C22 decoder has emitted
+    on the bytes received (`dd.data`, `dd` = the decoder after a run over `p`, unfinished, `noMoreData()` = `_DataLoss`)
+    and `connectionLost(ResponseFailed([r, _DataLoss]))` exactly once. -/
+theorem body_whole_stream_chunked_truncated (h p d : Bool) (evs post : List Event) (r : Exc)
+    (hdd : ∀ e ∈ evs, isDD e = true) (hpost : ∀ e ∈ post, e = .deliver)
+    (code : Int) (ph : Option Bytes) (conn : List (Bytes × Bytes)) (rest : Bytes)
+    (chunks : List C22.Chunk) (last : Bytes) (trailers : List Bytes) (q : Bytes)
+    (hc : ∀ c ∈ chunks, c.wf) (hl : C22.lineOK last 0) (ht : ∀ t ∈ trailers, C22.trailerOK t)
+    (hT : C22.trailerSize trailers ≤ Twisted.Http.Chunked.maxTrailerHeadersSize)
+    (hX : scan h hs0 (payloads evs).flatten = .final code ph conn (.body (.chunked Twisted.Http.Chunked.init)) rest)
+    (hpq : rest ++ q = C22.encode chunks last trailers) (hq : q ≠ []) :
+    let sF := run (Twisted.Http.Client.init h p false d) (evs ++ .lost r :: post)
+    sF.fires = [.response] ∧ ((d = true ∨ Event.deliver ∈ post) → sF.appDelivered = true) ∧
+      ∃ cs dd, cs.flatten = rest ∧ Twisted.Http.Chunked.feedAll Twisted.Http.Chunked.init cs = .ok dd ∧
+        dd.state ≠ .finished ∧ Twisted.Http.Chunked.noMoreData dd = .error (.dataLoss, dd) ∧
+        Observed sF dd.data (.failed [r, .dataLoss]) := by
+  obtain ⟨h1, h2, bs, hbs, hobs⟩ := body_whole_stream h p d evs post r hdd hpost code ph conn _ rest hX
+  obtain ⟨dd, d1, d2, d3, c1, c2⟩ := decRun_chunked_truncated chunks last trailers rest q bs r hc hl ht hT hpq hq hbs
+  rw [c1, c2] at hobs
+  exact ⟨h1, h2, _, dd, by rw [flatten_filter_ne]; exact hbs, d1, d2, d3, hobs⟩
+
+/-! ### non-vacuity of the whole-stream theorems -/
+
+/-- "HTTP/1.1 200 OK\r\nContent-Length: 3\r\n\r\nab" -/
+def exCL : Bytes := [72, 84, 84, 80, 47, 49, 46, 49, 32, 50, 48, 48, 32, 79, 75, 13, 10, 67, 111, 110, 116,
+  101, 110, 116, 45, 76, 101, 110, 103, 116, 104, 58, 32, 51, 13, 10, 13, 10, 97, 98]
+
+/-- the stream cut inside the header name, `deliverBody` only after the loss: through
+    `body_whole_stream_content_length` — the response, "ab", one `ResponseFailed([ConnectionDone, _DataLoss])` -/
+example :
+    let sF := run (Twisted.Http.Client.init false false false false)
+      ([.data (exCL.take 21), .data (exCL.drop 21)] ++ .lost .connectionDone :: [.deliver])
+    sF.fires = [.response] ∧ sF.delivered = [97, 98] ∧ sF.lost = [.failed [.connectionDone, .dataLoss]] ∧ sF.made = 1 := by
+  have hX : scan false hs0 (payloads [.data (exCL.take 21), .data (exCL.drop 21)]).flatten =
+      .final 200 (some [67, 111, 110, 116, 101, 110, 116, 45, 76, 101, 110, 103, 116, 104, 58, 32, 51])
+        [(NAME_CL, [51])] (.body (.ident (Ident.init (some 3)))) [97, 98] := by decide +kernel
+  obtain ⟨h1, h2, h3⟩ := body_whole_stream_content_length false false false _ [.deliver] .connectionDone
+    (by simp [isDD]) (by simp) _ _ _ 3 _ hX
+  obtain ⟨o1, o2, o3⟩ := h3.1 (h2 (Or.inr (by simp)))
+  exact ⟨h1, o1, by simpa using o2, o3⟩
+
+/-- "HTTP/1.1 200 OK\nTransfer-Encoding: chunked\n\n3\r\nabc\r\n0\r\n\r\n" (bare-LF head), byte-split in the size line,
+    the callback calls `deliverBody`: through `body_whole_stream_chunked` — "abc" and one `ResponseDone` -/
+example :
+    let sF := run (Twisted.Http.Client.init false true false true)
+      ([.data [72,84,84,80,47,49,46,49,32,50,48,48,32,79,75,10,84,114,97,110,115,102,101,114,45,69,110,99,111,100,105,110,
+          103,58,32,99,104,117,110,107,101,100,10,10,51], .deliver, .data [], .data [13,10,97,98,99,13,10,48,13,10,13,10]]
+        ++ .lost .connectionDone :: [])
+    sF.fires = [.response] ∧ sF.delivered = [97, 98, 99] ∧ sF.lost = [.done] ∧ sF.made = 1 := by
+  have hX : scan false hs0 (payloads [.data [72,84,84,80,47,49,46,49,32,50,48,48,32,79,75,10,84,114,97,110,115,102,101,114,
+      45,69,110,99,111,100,105,110,103,58,32,99,104,117,110,107,101,100,10,10,51], .deliver, .data [],
+      .data [13,10,97,98,99,13,10,48,13,10,13,10]]).flatten =
+      .final 200 (some [84, 114, 97, 110, 115, 102, 101, 114, 45, 69, 110, 99, 111, 100, 105, 110, 103, 58, 32, 99, 104,
+        117, 110, 107, 101, 100]) [(NAME_TE, CHUNKED)] (.body (.chunked Twisted.Http.Chunked.init))
+        [51, 13, 10, 97, 98, 99, 13, 10, 48, 13, 10, 13, 10] := by decide +kernel
+  obtain ⟨h1, h2, h3⟩ := body_whole_stream_chunked false true true _ [] .connectionDone
+    (by simp [isDD]) (by simp) _ _ _ _ [⟨[51], [97, 98, 99]⟩] [48] [] []
+    (by intro c hc; simp at hc; subst hc; exact ⟨⟨by decide, by decide, by decide, by decide⟩, by decide⟩)
+    ⟨by decide, by decide, by decide, by decide⟩ (by simp) (by decide) hX (by decide)
+  obtain ⟨o1, o2, o3⟩ := h3.1 (h2 (Or.inl rfl))
+  exact ⟨h1, by simpa [C22.body] using o1, o2, o3⟩
+
+/-- "HTTP/1.1 100 Continue\r\n\r\nHTTP/1.0 200 OK\r\n\r\nxyz": the interim head is skipped, the body is close-delimited -/
+example : scan false hs0 [72,84,84,80,47,49,46,49,32,49,48,48,32,67,111,110,116,105,110,117,101,13,10,13,10,
+    72,84,84,80,47,49,46,48,32,50,48,48,32,79,75,13,10,13,10,120,121,122] =
+    .final 200 none [] (.body (.ident (Ident.init none))) [120, 121, 122] := by decide +kernel
+
+/-- "HTTP/1.1 x\r\n": malformed, `ParseError`; through `request_fires_response_iff_head_complete`:
+    `ResponseFailed([ParseError])`, and never the response -/
+example : (run (Twisted.Http.Client.init false false false true)
+    ([.data [72,84,84,80,47,49,46,49,32,120,13,10]] ++ .lost .connectionLost :: [])).fires = [.responseFailed [.parseError]] := by
+  have h := (request_fires_response_iff_head_complete false false true [.data [72,84,84,80,47,49,46,49,32,120,13,10]] []
+    .connectionLost (by simp [isDD]) (by simp) (by decide +kernel)).1
+  rw [h]
+  decide +kernel
 
 end TwistedProps.C23
